@@ -156,10 +156,58 @@ func run(c *core.Ctx) {
 			exec(c, cs)
 		}
 	}
+	// ---- timer and channel ready together: conservation only (oracle, no model run) ----
+	for i := c.N(4, 40, 20); i > 0; i-- {
+		exec(c, Case{Fn: "TimerRaceSend", N: 30000})
+		exec(c, Case{Fn: "TimerRaceRecv", N: 30000})
+	}
 	// ---- RecvQueued / RecvQueuedFull against a concurrent producer: conservation only (oracle, no model run) ----
 	for i := c.N(40, 1000, 600); i > 0 && stuck < 3; i-- {
 		exec(c, Case{Fn: "QueuedConcurrent", Cap: c.Rng.Intn(5), N: c.Rng.Range(1, c.N(60, 400, 400)), Limit: c.Rng.Range(1, 7)})
 	}
+}
+
+// execTimerRace: the timer and the channel become ready at (almost) the same moment — a timeout of a few
+// nanoseconds on a channel that is ready. Either outcome is allowed, but the result must tell the truth:
+// SendTimeout true iff the value is now in the channel, RecvTimeout (v,true) iff v was taken. N rounds per case.
+func execTimerRace(c *core.Ctx, cs Case) {
+	for i := 0; i < cs.N; i++ {
+		d := time.Duration(1 + i%3*40) // 1ns, 41ns, 81ns
+		switch cs.Fn {
+		case "TimerRaceSend":
+			ch := make(chan int, 1)
+			ok := chans.SendTimeout(ch, 7+i, d)
+			if ok != (len(ch) == 1) {
+				c.Fail("SendTimeout result does not say whether the value was sent (timer and channel ready together)",
+					fmt.Sprintf("round %d timeout %v: returned %v, values in channel %d", i, d, ok, len(ch)))
+				return
+			}
+			if ok {
+				if v := <-ch; v != 7+i {
+					c.Fail("SendTimeout sent a different value", fmt.Sprint(v))
+					return
+				}
+				c.Count("timer_race_send_true")
+			} else {
+				c.Count("timer_race_send_false")
+			}
+		case "TimerRaceRecv":
+			ch := make(chan int, 1)
+			ch <- 7 + i
+			v, ok := chans.RecvTimeout(ch, d)
+			if ok != (len(ch) == 0) || (ok && v != 7+i) || (!ok && v != 0) {
+				c.Fail("RecvTimeout result does not say whether a value was taken (timer and channel ready together)",
+					fmt.Sprintf("round %d timeout %v: returned (%d,%v), values left %d", i, d, v, ok, len(ch)))
+				return
+			}
+			if ok {
+				c.Count("timer_race_recv_true")
+			} else {
+				c.Count("timer_race_recv_false")
+			}
+		}
+	}
+	c.Nontrivial()
 }
 
 func exec(c *core.Ctx, cs Case) {
@@ -173,6 +221,8 @@ func exec(c *core.Ctx, cs Case) {
 		execQueued(c, cs)
 	case "QueuedConcurrent":
 		execConcurrent(c, cs)
+	case "TimerRaceSend", "TimerRaceRecv":
+		execTimerRace(c, cs)
 	default:
 		execTimed(c, cs)
 	}
